@@ -2,11 +2,14 @@
 C10 — conditional inclusion and #include resolution select exactly the right text.
 
 Property theorems only.  Models: Model/CondIncl.lean (preprocess2's conditional arms, the cond_incl
-stack, the two skip functions, detect_include_guard), Model/IncludeSearch.lean (include search,
-include_file's shortcuts, main.c's options), Model/PPExpr.lean (#if expressions).
+stack, the two skip functions, detect_include_guard), Model/IncludeSearch.lean (include search, the
+tables of include_file, main.c's options), Model/IncludeDepth.lean (include_file with its nesting
+limit: the spliced-stream machine `runIncD` and the total function `runAt`/`includeRun`),
+Model/PPExpr.lean (#if expressions).
 Specification: Spec/CondInclSpec.lean (C11 6.10.1 grammar tree and its evaluation),
 Spec/IncludeSearchSpec.lean (documented search order).  Helper lemmas: Lemmas/CondInclLemmas.lean,
-Lemmas/IncludeSearchLemmas.lean, Lemmas/PPExprLemmas.lean.
+Lemmas/IncludeSearchLemmas.lean, Lemmas/IncludeDepthLemmas.lean, Lemmas/IncludeDepthShortcuts.lean,
+Lemmas/PPExprLemmas.lean.
 
 Every theorem is for all line lists / macro tables / evaluators / configurations / file systems.
 Open item (known finding C10-ppif-int-result-shift): `C10_ifexpr_Statement` is false on the model
@@ -15,11 +18,14 @@ outside the region `intResultOverflows`.
 -/
 import ChibiVerif.Lemmas.CondInclLemmas
 import ChibiVerif.Lemmas.IncludeSearchLemmas
+import ChibiVerif.Lemmas.IncludeDepthShortcuts
+import ChibiVerif.Lemmas.IncludeOperandLemmas
 import ChibiVerif.Lemmas.PPExprLemmas
 
 namespace ChibiVerif.Props.C10
 open ChibiVerif.CondIncl ChibiVerif.Spec.CondIncl ChibiVerif.IncludeSearch ChibiVerif.Spec.IncludeSearch
-open ChibiVerif.PPExpr
+open ChibiVerif.PPExpr ChibiVerif.IncludeDepth ChibiVerif.IncludeOperand
+open ChibiVerif.Gen.C10Incl (includeDepthLimit)
 
 variable {ε β : Type}
 
@@ -113,10 +119,12 @@ theorem C10_directive_sets :
 
 -- ================================================================== #if expressions
 
-/-- full statement: chibicc's `eval_const_expr` computes the value C11 6.10.1p4 defines
-    (intmax_t / uintmax_t arithmetic, `defined`, remaining identifiers 0).  FALSE for the code as it
-    is: Findings/C10.lean, `C10_finding_ifexpr`. -/
-def C10_ifexpr_Statement : Prop := ∀ (defs : Defs Body) (e : Expr), evC e defs = ev e defs
+/-- full statement: wherever C11 6.10.1p4 defines the outcome of a controlling expression (a value, or the
+    division-by-zero diagnostic; `undefinedByC11`: signed overflow / shift count out of range – nothing is required
+    there), chibicc's `eval_const_expr` computes it (intmax_t / uintmax_t arithmetic, `defined`, remaining
+    identifiers 0).  FALSE for the code as it is: Findings/C10.lean, `C10_finding_ifexpr`. -/
+def C10_ifexpr_Statement : Prop :=
+  ∀ (defs : Defs Body) (e : Expr), undefinedByC11 defs e = false → evC e defs = ev e defs
 
 /-- **C10 (#if arithmetic, partial).**  Outside the region of C10-ppif-int-result-shift – no
     intermediate result that chibicc types `int` (results of `< <= > >= == != ! && ||` and arithmetic
@@ -172,10 +180,55 @@ theorem C10_identifiers_zero (ts : List Tok) (defs : Defs Body) (n : String) (hn
   refine ⟨identToZero_no_ident ts, ?_⟩
   simp [evalTop, hasNonExpr, evalN, FUEL, hn]
 
-/-- full statement at the level of translation units: the machine with chibicc's evaluator selects
-    the text C11 selects.  FALSE (same finding). -/
+/-- **C10 (#if arithmetic, static criterion).**  The region of the known finding, bounded by chibicc's own typing,
+    without evaluating anything: if the only nodes of the expression (macro bodies included) that chibicc types `int`
+    are the results of `< <= > >= == != ! && ||` themselves – i.e. no unary `- + ~`, no arithmetic, bitwise or shift
+    operator and no `?:` is applied to operands that are *all* such results – then the expression lies outside the
+    region, and chibicc computes the C11 value.  (`(a < b) + 1`, `(a < b) * 0x100000000`, `x == y ? 1 : 2` qualify;
+    `(a < b) << n`, `-(a < b)`, `(a < b) + (c < d)` do not, although only the first can actually leave 32 bits.) -/
+theorem C10_ifexpr_static_partial (defs : Defs Body) (e : Expr) (h : intArithFree defs FUEL [] e = true)
+    (hu : undefinedByC11 defs e = false) :
+    intResultOverflows defs e = false ∧ evC e defs = ev e defs :=
+  ⟨intArithFree_outside_region defs e h, C10_ifexpr_partial defs e (intArithFree_outside_region defs e h) hu⟩
+
+/-- non-vacuity: `(1 < 2) * 0x100000000 == 0x100000000 && -1 < 0u == 0` satisfies the criterion -/
+example : intArithFree [] FUEL [] (.bin .land
+      (.bin .eq (.bin .mul (.bin .lt (.num 1 false) (.num 2 false)) (.num (2^32) false)) (.num (2^32) false))
+      (.bin .eq (.bin .lt (.un .neg (.num 1 false)) (.num 0 true)) (.num 0 false))) = true ∧
+    intArithFree [] FUEL [] (.bin .shl (.bin .lt (.num 1 false) (.num 2 false)) (.num 40 false)) = false := by decide
+
+/-- the evaluator with a tripwire: `outOfFuel` (a diagnostic neither evaluator ever produces) as soon as a condition is
+    *evaluated* under a macro table where `P` holds -/
+abbrev tripwire (P : Expr → Defs Body → Bool) (evf : Expr → Defs Body → Except Diag Bool) :=
+  guardEv P .outOfFuel evf
+
+/-- full statement at the level of translation units: if no condition that is actually evaluated (under the macro
+    table of that moment) has behaviour C11 leaves undefined, the machine with chibicc's evaluator selects the text
+    C11 selects.  FALSE (same finding). -/
 def C10_groups_c11_Statement : Prop :=
-  ∀ (ls : List (Line Expr Body)) (d : Defs Body), condMachine evC ls d = groups ev ls d
+  ∀ (ls : List (Line Expr Body)) (d : Defs Body),
+    condMachine (tripwire (fun e d' => undefinedByC11 d' e) ev) ls d ≠ .error .outOfFuel →
+    condMachine evC ls d = groups ev ls d
+
+/-- **C10 (groups against C11 arithmetic, evaluated conditions only).**  If none of the conditions that are actually
+    *evaluated* while the unit is processed – under the macro table of that moment; conditions in skipped groups and
+    `#elif`s after a taken group do not count – lies in the region of the known finding or has undefined behaviour,
+    the machine with chibicc's evaluator produces exactly what the C11 grammar tree with the C11 evaluator produces. -/
+theorem C10_groups_c11_evaluated_partial (ls : List (Line Expr Body)) (d : Defs Body)
+    (h : condMachine (tripwire (fun e d' => intResultOverflows d' e || undefinedByC11 d' e) evC) ls d ≠ .error .outOfFuel) :
+    condMachine evC ls d = groups ev ls d := by
+  rw [condMachine_guard evC ev _ .outOfFuel (fun c d' hP => by
+    simp only [Bool.or_eq_false_iff] at hP
+    exact C10_ifexpr_partial d' c hP.1 hP.2) ls d h]
+  exact C10_groups ev ls d
+
+/-- non-vacuity: the shifted comparison stands in a skipped group and in an `#elif` after the taken group: the unit is
+    outside the hypothesis of the weaker theorem below, inside this one's -/
+example : condMachine (tripwire (fun e d' => intResultOverflows d' e || undefinedByC11 d' e) evC)
+    ([.opens (.ifE (.num 1 false)), .plain (.text ["a"]),
+      .part (.elif (.bin .shl (.bin .lt (.num 1 false) (.num 2 false)) (.num 40 false))), .plain (.text ["b"]), .endif false,
+      .opens (.ifE (.num 0 false)), .opens (.ifE (.bin .shl (.bin .lt (.num 1 false) (.num 2 false)) (.num 40 false))), .endif false,
+      .endif false] : List (Line Expr Body)) [] = .ok ⟨[], [["a"]]⟩ := by decide
 
 /-- **C10 (groups against C11 arithmetic, partial).**  If no controlling expression of the unit lies
     in the region or has undefined behaviour (under any macro table), the machine with chibicc's evaluator produces exactly what
@@ -244,6 +297,106 @@ example : dirPrefixIdx (includePaths ⟨["A", "B"], ["S"], ["Z"]⟩) "B/x.h" = s
     searchIncludeNext (fun p => p == "A/x.h" || p == "S/x.h" || p == "Z/x.h") (includePaths ⟨["A", "B"], ["S"], ["Z"]⟩)
       "x.h" "A/x.h" = some "S/x.h" := by decide
 
+/-- **C10 (the operand of #include, token level).**  `read_include_filename`, for every macro expander:
+    (1) a string token is the file name in quoted form – whatever follows it on the line, whatever the macro table;
+    (2) `<` t₁ … tₙ `>` (no `>` among the tᵢ) is the file name `join_tokens(t₁…tₙ)` in angle form – whatever follows;
+        without white space between the tᵢ that is the concatenation of their spellings;
+    (3) an operand that starts with an identifier is macro-expanded as a whole line and the result is read by (1)/(2);
+        if the result is empty or still starts with an identifier the directive is rejected;
+    (4) any other operand, and `<` without `>` on the line, is rejected. -/
+theorem C10_operand_forms (xp : List OTok → Except Diag (List OTok)) (t lt gt : OTok) (ts rest : List OTok)
+    (hlt : isLt lt = true) (hgt : isGt gt = true) (hno : ∀ u ∈ ts, isGt u = false) :
+    (t.kind = .str → readOperand xp (t :: rest) = .ok (t.text, true)) ∧
+    readOperand xp (lt :: (ts ++ gt :: rest)) = .ok (joinToks ts, false) ∧
+    ((∀ u ∈ ts.tail, u.hasSpace = false) → joinToks ts = String.join (ts.map OTok.spelling)) ∧
+    (t.kind = .ident → readOperand xp (t :: rest) =
+      match xp (t :: rest) with
+      | .error e => .error e
+      | .ok [] => .error .badDirective
+      | .ok (t' :: r') => if t'.kind = .ident then .error .badDirective else readDirect (t' :: r')) ∧
+    (t.kind = .other → isLt t = false → readOperand xp (t :: rest) = .error .badDirective) ∧
+    readOperand xp (lt :: ts) = .error .badDirective :=
+  ⟨readOperand_str xp t rest, readOperand_angle xp lt gt ts rest hlt hgt hno, joinToks_noSpace ts,
+   readOperand_macro xp t rest, readOperand_other xp t rest, readOperand_angle_open xp lt ts hlt hno⟩
+
+/-- **C10 (the expander used for #include operands is total).**  Object-like macro replacement with hide sets
+    (`expandObj`, the transcription of `expand_macro`'s object-like arm, which the driver applies to `#include MACRO`
+    operands) terminates for every macro table – self- and mutually recursive definitions included – and every
+    line: a budget computed from the table and the line suffices, any larger budget gives the same result, and the
+    budget-free `expandObjT` always delivers a token list.  (The general expander, function-like macros
+    included, belongs to property C09.) -/
+theorem C10_operand_expander_total (defs : ODefs) (ts : List OTok) :
+    (∃ r, expandObjT defs ts = .ok r) ∧ ∀ fuel, total defs ts ≤ fuel → expandObj defs fuel ts = expandObjT defs ts :=
+  ⟨expandObjT_ok defs ts, fun fuel h => expandObj_eq_T defs ts fuel h⟩
+
+/-- hence the hypothesis `hxp` of `C10_include_terminates` holds for the driver's expander, whatever table of
+    object-like macros `tbl` extracts from the machine's macro table -/
+example {β : Type} (tbl : Defs β → String → ODefs) :
+    ∀ d f ts, (fun d f ts => expandObjT (tbl d f) ts : Xp β) d f ts ≠ .error .outOfFuel :=
+  fun d f ts => expandObjT_ne_outOfFuel (tbl d f) ts
+
+/-- a self-referential and a mutually recursive definition: `#define A A B` / `#define B A` – expansion of `A` stops
+    with the hidden names left in place -/
+example : (expandObjT [("A", [⟨.ident, "A", true, []⟩, ⟨.ident, "B", true, []⟩]), ("B", [⟨.ident, "A", true, []⟩])]
+    [⟨.ident, "A", false, []⟩]).toOption.map (·.map (·.text)) = some ["A", "A"] := by decide +kernel
+
+/-- non-vacuity: `#define H <d0/h.h>` / `#include H junk`: the driver's expander replaces `H`, the operand reads `d0/h.h`
+    in angle form; `#include "a.h" junk` reads `a.h` in quoted form; `#include H` with H undefined is rejected -/
+example :
+    let lt : OTok := ⟨.other, "<", false, []⟩
+    let gt : OTok := ⟨.other, ">", false, []⟩
+    let body : List OTok := [lt, ⟨.ident, "d0", false, []⟩, ⟨.other, "/", false, []⟩, ⟨.ident, "h", false, []⟩,
+      ⟨.other, ".", false, []⟩, ⟨.ident, "h", false, []⟩, gt]
+    isLt lt = true ∧ isGt gt = true ∧
+    readOperand (expandObj [("H", body)] 100) [⟨.ident, "H", true, []⟩, ⟨.ident, "junk", true, []⟩] = .ok ("d0/h.h", false) ∧
+    readOperand (expandObj [] 100) [⟨.str, "a.h", true, []⟩, ⟨.ident, "junk", true, []⟩] = .ok ("a.h", true) ∧
+    readOperand (expandObj [] 100) [⟨.ident, "H", true, []⟩] = .error .badDirective := by decide +kernel
+
+/-- **C10 (search, every form of the directive).**  Whenever `preprocess2`'s loop is about to open a file for a
+    line – `#include "name"`, `#include <name>`, `#include_next …`, or either with an operand produced by macro
+    expansion that reads as `name` (C10_operand_forms) – that file is the one the documented order names for
+    `name`: the directory of the including file first (quoted form only), then -I, system, -idirafter; for
+    #include_next the chain after the directory of the current file. -/
+theorem C10_search_directive (ev : ε → Defs β → Except Diag Bool) (xp : Xp β) (fs : XFS ε β) (c : Config) (g : Bool)
+    (file : String) (l : XLine ε β) (m m' : Mode) (s s' : IState β) (path : String)
+    (hc : CacheOK fs.has (includePaths c) s.cache)
+    (h : preStep ev xp fs (includePaths c) g file l m s = .ok (some path, s', m')) :
+    (∃ dq name, IsIncl xp file l false name dq ∧ path = (search fs.has c (dirname file) dq name).getD name) ∨
+    (∃ dq name, IsIncl xp file l true name dq ∧
+      path = (searchNext fs.has c (dirPrefixIdx (includePaths c) file) name).getD name) := by
+  obtain ⟨_, _, hn⟩ := preStep_some ev xp fs (includePaths c) g file l m m' s s' path h
+  rcases hn with ⟨dq, name, hi, hp⟩ | ⟨dq, name, hi, hp⟩
+  · exact Or.inl ⟨dq, name, hi, by rw [hp]; exact resolveInclude_eq_search fs.has c s.cache file dq name hc⟩
+  · exact Or.inr ⟨dq, name, hi, by rw [hp, resolveIncludeNext, searchIncludeNext_eq]⟩
+
+/-- … and the filename cache stays sound along the way, so the hypothesis holds throughout a run -/
+theorem C10_search_cache_invariant (ev : ε → Defs β → Except Diag Bool) (xp : Xp β) (fs : XFS ε β) (paths : List String) (g : Bool)
+    (file : String) (l : XLine ε β) (m m' : Mode) (s s' : IState β) (o : Option String)
+    (hc : CacheOK fs.has paths s.cache)
+    (h : preStep ev xp fs paths g file l m s = .ok (o, s', m')) : CacheOK fs.has paths s'.cache := by
+  rcases preStep_shape ev xp fs paths file l m s with ⟨r, hr⟩ | ⟨e, he⟩ | ⟨o', ho⟩ | ⟨hm, dq, name, hi, ht⟩ | ⟨hm, dq, name, hi, ht⟩
+  · rw [hr g] at h
+    cases r with
+    | error e => simp at h
+    | ok q => simp only [Except.ok.injEq, Prod.mk.injEq] at h; rw [← h.2.1]; exact hc
+  · rw [he g] at h; simp at h
+  · rw [ho g] at h; simp only [Except.ok.injEq, Prod.mk.injEq] at h; rw [← h.2.1]; exact hc
+  · rw [ht g] at h; simp only [mkTarget, Except.ok.injEq, Prod.mk.injEq] at h; rw [← h.2.1]
+    show CacheOK fs.has paths (resolveInclude fs.has paths s.cache file dq name).2
+    unfold resolveInclude
+    split
+    · exact hc
+    · exact (searchIncludePaths_cache fs.has paths s.cache name hc).2
+  · rw [ht g] at h; simp only [mkTarget, Except.ok.injEq, Prod.mk.injEq] at h; rw [← h.2.1]; exact hc
+
+/-- non-vacuity: `#include H` with `H` ↦ `"h.h"` in file d/a.c, h.h present beside it and in the -I directory:
+    the file beside the includer is opened -/
+example :
+    (preStep (fun (b : Bool) (_ : Defs Unit) => .ok b) (fun _ _ ts => expandObj [("H", [⟨.str, "h.h", false, []⟩])] 10 ts)
+      (XFS.ofTable [("d/h.h", []), ("I/h.h", [])]) (includePaths ⟨["I"], [], []⟩) true "d/a.c"
+      (.inclMacro false [⟨.ident, "H", true, []⟩]) .proc ⟨⟨⟨[], []⟩, []⟩, [], [], []⟩).toOption.map (·.1)
+      = some (some "d/h.h") := by decide +kernel
+
 -- ================================================================== re-inclusion shortcuts
 
 /-- **C10 (include guards).**  If `detect_include_guard` accepts a file (returns the guard macro
@@ -268,29 +421,119 @@ example :
     detectGuard ([.opens (.ifndef "G" true), .plain (.define "G" ()), .endif false] : List (Line Bool Unit)) = none ∧
     detectGuard ([.opens (.ifndef "G" false), .plain (.define "G" ()), .endif true] : List (Line Bool Unit)) = none := by decide
 
-/-- **C10 (`#pragma once`).**  `#pragma once` records the file it stands in; a recorded file
-    contributes nothing when included again (no tokens, no state change); records are never removed by
-    `include_file`. -/
-theorem C10_pragma_once (ev : ε → Defs β → Except Diag Bool) (fs : FS ε β) (paths : List String) (b : Bool)
-    (file path : String) (s : IState β) :
-    stepInc ev fs paths b file .pragmaOnce .proc s = .ok ([], { s with once := file :: s.once }, .proc) ∧
-    (s.once.contains path = true → includeFile fs b path s = .ok ([], s)) ∧
-    (∀ ls s', includeFile fs b path s = .ok (ls, s') → s'.once = s.once) :=
-  ⟨rfl, includeFile_once fs b path s, fun ls s' h => includeFile_once_mono fs b path s s' ls h⟩
+/-- **C10 (include guards, in the include machine).**  A file accepted by `detect_include_guard`, opened
+    (at any nesting depth, whatever stands in it – further #include lines too) while its guard macro
+    is defined: the machine is back behind the file with no tokens emitted, no state changed and
+    nothing opened. -/
+theorem C10_shortcuts_file (ev : ε → Defs β → Except Diag Bool) (xp : Xp β) (fs : XFS ε β) (paths : List String) (b : Bool)
+    (r : Nat) (path : String) (ls : List (XLine ε β)) (g : String)
+    (hg : detectGuard (ls.map XLine.toLine) = some g) (s : IState β) (hdef : s.st.obs.defs.isDef g = true) :
+    runAt ev xp fs paths b r path ls .proc s = .ok (s, .proc) := by
+  rw [runAt_eq]; exact runLines_guarded_file ev xp fs paths b _ path ls g hg 1 s hdef
+
+example : detectGuard (([.base (.c (.opens (.ifndef "G" false))), .base (.c (.plain (.define "G" ()))), .base (.incl true "x.h"),
+    .inclMacro false [⟨.ident, "H", true, []⟩], .base .pragmaOnce, .base (.c (.endif false))] : List (XLine Bool Unit)).map XLine.toLine)
+    = some "G" := by decide
+
+/-- **C10 (`#pragma once`).**  `#pragma once` records the file it stands in; an #include that names a
+    recorded file contributes nothing (no tokens, no state change beyond the filename cache, the
+    file is not opened – at any nesting depth); records are never removed. -/
+theorem C10_pragma_once (ev : ε → Defs β → Except Diag Bool) (xp : Xp β) (fs : XFS ε β) (paths : List String) (b : Bool)
+    (file : String) (s : IState β) :
+    preStep ev xp fs paths b file (.base .pragmaOnce) .proc s = .ok (none, { s with once := file :: s.once }, .proc) ∧
+    (∀ (sub : Sub ε β) (dq : Bool) (name : String) (rest : List (XLine ε β)) (i : Nat),
+      s.once.contains (resolveInclude fs.has paths s.cache file dq name).1 = true →
+      runLines ev xp fs paths b sub file i (.base (.incl dq name) :: rest) .proc s =
+        runLines ev xp fs paths b sub file (i + 1) rest .proc
+          { s with cache := (resolveInclude fs.has paths s.cache file dq name).2 }) ∧
+    (∀ path ls s', openFile fs path s = .ok (ls, s') → s'.once = s.once) := by
+  refine ⟨rfl, ?_, fun path ls s' h => openFile_once fs path s s' ls h⟩
+  intro sub dq name rest i h
+  have hs : shortcutFires b (resolveInclude fs.has paths s.cache file dq name).1
+      ({ s with cache := (resolveInclude fs.has paths s.cache file dq name).2 } : IState β) = true :=
+    shortcutFires_once b _ _ h
+  simp only [runLines, preStep, inclTarget, mkTarget, hs, if_true]
+
+/-- non-vacuity: after `#pragma once` in g.h the name g.h is recorded -/
+example : (preStep (fun (b : Bool) (_ : Defs Unit) => .ok b) (fun _ _ ts => .ok ts) (fun _ => none) [] true "g.h" (.base .pragmaOnce) .proc
+    ⟨⟨⟨[], []⟩, []⟩, [], [], []⟩).toOption.map (·.2.1.once.contains "g.h") = some true := by decide
 
 /-- **C10 (shortcuts = plain textual inclusion, every include graph).**  For every file system,
-    search path, input and state whose `include_guards` table was filled by `detect_include_guard`
-    (in particular the empty table a run starts with): whenever the machine *without* the
-    include-guard shortcut (every #include splices the file's lines) finishes, the machine *with* the
-    shortcut finishes in the same state: same emitted text, same macro table, same conditional stack. -/
-theorem C10_shortcuts_graph (ev : ε → Defs β → Except Diag Bool) (fs : FS ε β) (paths : List String)
-    (fuel : Nat) (lines : List (String × ILine ε β)) (m : Mode) (s : IState β) (r : IState β × Mode)
-    (hok : GuardsOK fs s.guards)
-    (h : runInc ev fs paths false fuel lines m s = .ok r) :
-    runInc ev fs paths true fuel lines m s = .ok r :=
-  runInc_guards_transparent ev fs paths fuel lines m s r hok h
+    search path, list of input files (-include files, main file), nesting limit and state whose
+    `include_guards` table was filled by `detect_include_guard` (in particular the empty table a run
+    starts with): whenever the machine *without* the include-guard shortcut (every #include opens
+    and processes the file) finishes, the machine *with* the shortcut finishes in the same state:
+    same emitted text, same macro table, same conditional stack.  (The converse fails only at the
+    nesting limit: a guarded file named at depth 200 is skipped by the shortcut and refused by plain
+    inclusion – Findings/C10.lean.) -/
+theorem C10_shortcuts_graph (ev : ε → Defs β → Except Diag Bool) (xp : Xp β) (fs : XFS ε β) (paths : List String)
+    (limit : Nat) (files : List (String × List (XLine ε β))) (m : Mode) (s : IState β) (r : IState β × Mode)
+    (hok : GuardsOKX fs s.guards)
+    (h : runTop ev xp fs paths false limit files m s = .ok r) :
+    runTop ev xp fs paths true limit files m s = .ok r :=
+  (runTop_guards_transparent ev xp fs paths limit files m s r hok h).1
 
-example (fs : FS ε β) : GuardsOK fs [] := GuardsOK_nil fs
+example (fs : XFS ε β) : GuardsOKX fs [] := GuardsOKX_nil fs
+
+-- ================================================================== include nesting
+
+/-- **C10 (include processing terminates).**  For every file system – cyclic include graphs
+    included –, every search path, every list of input files and every state:
+    (1) the machine transcribed from the C code (one token stream, an #include splices the opened
+        file in front of the rest; it runs on a step budget) needs only a finite budget, and with any
+        budget above that bound it computes exactly the total, budget-free function `runTop`;
+    (2) the outcome is a result or a diagnostic, never "out of budget";
+    (3) the diagnostic "#include nested too deeply" at line `j` of file `f` is reported only if the
+        include graph has a chain of `limit` nested includes: files p₀ (an input file), p₁, …,
+        p_limit = f, each existing and named by an include directive of its predecessor, and `f` has
+        a further include directive at line `j`. -/
+theorem C10_include_terminates (ev : ε → Defs β → Except Diag Bool) (hev : ∀ c d, ev c d ≠ .error .outOfFuel)
+    (xp : Xp β) (hxp : ∀ d f ts, xp d f ts ≠ .error .outOfFuel) (fs : XFS ε β) (paths : List String) (g : Bool) (limit : Nat) (files : List (String × List (XLine ε β)))
+    (m : Mode) (s : IState β) :
+    (∃ N, ∀ fuel, N ≤ fuel →
+      runIncD ev xp fs paths g limit fuel (tagFiles files) m s = runTop ev xp fs paths g limit files m s) ∧
+    runTop ev xp fs paths g limit files m s ≠ .error (.diag .outOfFuel) ∧
+    (∀ f j, runTop ev xp fs paths g limit files m s = .error (.nestedTooDeeply f j) →
+      ∃ x ∈ files, NestChain xp fs paths limit x.1 x.2 f j) :=
+  ⟨runIncD_files ev xp fs paths g limit files m s, runTop_no_outOfFuel ev hev xp hxp fs paths g limit files m s,
+   fun f j h => runTop_nested_chain ev xp fs paths g limit files m s f j h⟩
+
+/-- the hypothesis on the evaluator holds for chibicc's and for the C11 evaluator of #if expressions -/
+example : (∀ c d, evC c d ≠ .error .outOfFuel) ∧ (∀ c d, ev c d ≠ .error .outOfFuel) := by
+  constructor <;> intro c d h <;> simp only [evC, ev, toDiag] at h <;> split at h <;> cases h
+
+/-- **C10 (whole runs).**  `chibicc -E <options> main`, with the nesting limit of the code
+    (`includeDepthLimit`, regenerated from include_file on every run; C11 5.2.4.1 asks for at least
+    15 levels): the run on the spliced stream with a large enough budget is the total function
+    `includeRun`; it ends with output or a diagnostic; "#include nested too deeply" only at the end
+    of a chain of `includeDepthLimit` nested includes that starts in the main file or a -include file. -/
+theorem C10_include_terminates_main (xp : Xp Body) (hxp : ∀ d f ts, xp d f ts ≠ .error .outOfFuel) (fs : XFS Expr Body) (sysDirs : List String) (builtin : Defs Body)
+    (os : List (Opt Body)) (main : String) (g : Bool) :
+    15 ≤ includeDepthLimit ∧
+    (∃ N, ∀ fuel, N ≤ fuel →
+      includeRunFuel evC xp fs sysDirs builtin os main g includeDepthLimit fuel
+        = includeRun evC xp fs sysDirs builtin os main g includeDepthLimit) ∧
+    includeRun evC xp fs sysDirs builtin os main g includeDepthLimit ≠ .error (.diag .outOfFuel) ∧
+    (∀ f j, includeRun evC xp fs sysDirs builtin os main g includeDepthLimit = .error (.nestedTooDeeply f j) →
+      ∃ p ls, fs.get p = some ls ∧
+        NestChain xp fs (includePaths (optConfig sysDirs os)) includeDepthLimit p ls f j) := by
+  refine ⟨by decide, includeRunFuel_eq evC xp fs sysDirs builtin os main g _, ?_, ?_⟩
+  · refine includeRun_no_outOfFuel evC ?_ xp hxp fs sysDirs builtin os main g _
+    intro c d h; simp only [evC, toDiag] at h; split at h <;> cases h
+  · exact fun f j h => includeRun_nested_chain evC xp fs sysDirs builtin os main g _ f j h
+
+/-- non-vacuity (limit 3 for the kernel's sake; the statement above is for every limit): a file that
+    includes itself ends with the located diagnostic, a guarded cycle ends with output -/
+example :
+    includeRun (fun (b : Bool) (_ : Defs Unit) => .ok b) (fun _ _ ts => .ok ts)
+      (XFS.ofTable [("m.c", [.base (.c (.plain (.text ["a"]))), .base (.incl true "m.c")]),
+        ("./m.c", [.base (.c (.plain (.text ["a"]))), .base (.incl true "m.c")])])
+      [] [] [] "m.c" true 3 = .error (.nestedTooDeeply "./m.c" 2) ∧
+    includeRun (fun (b : Bool) (_ : Defs Unit) => .ok b) (fun _ _ ts => .ok ts)
+      (XFS.ofTable [("m.c", [.base (.incl true "g.h"), .base (.c (.plain (.text ["m"])))]),
+        ("./g.h", [.base (.c (.opens (.ifndef "G" false))), .base (.c (.plain (.define "G" ()))), .base (.c (.plain (.text ["g"]))),
+          .base (.incl true "g.h"), .base (.c (.endif false))])])
+      [] [] [] "m.c" true 3 = .ok ⟨[("G", ())], [["g"], ["m"]]⟩ := by decide +kernel
 
 -- ================================================================== command line
 
